@@ -62,6 +62,10 @@ def build_gate(spec, F):
         return {"Rx": qib.RxGate, "Ry": qib.RyGate, "Rz": qib.RzGate}[k](spec[1], qubit(F, spec[2]))
     if k in ("Rxx", "Ryy", "Rzz"):
         return {"Rxx": qib.RxxGate, "Ryy": qib.RyyGate, "Rzz": qib.RzzGate}[k](spec[1], qubit(F, spec[2]), qubit(F, spec[3]))
+    if k == "Rot":
+        return qib.RotationGate(list(spec[1]), qubit(F, spec[2]))
+    if k == "Prep":
+        return qib.PrepareGate(list(spec[1]), len(spec[2])).on([qubit(F, p) for p in spec[2]])
     if k == "iSwap":
         return qib.ISwapGate(qubit(F, spec[1]), qubit(F, spec[2]))
     if k == "Phase":
@@ -83,8 +87,10 @@ def spec_particles(spec):
     k = spec[0]
     if k in ("I", "X", "Y", "Z", "H", "S", "Sdg", "T", "Tdg", "Sx"):
         return [tuple(spec[1])]
-    if k in ("Rx", "Ry", "Rz"):
+    if k in ("Rx", "Ry", "Rz", "Rot"):
         return [tuple(spec[2])]
+    if k == "Prep":
+        return [tuple(p) for p in spec[2]]
     if k in ("Rxx", "Ryy", "Rzz"):
         return [tuple(spec[3]), tuple(spec[2])]      # the code lists [q2, q1]
     if k == "iSwap":
@@ -296,8 +302,11 @@ def run(ctx):
     ctx.rules.append("dense non-symmetric Gaussian-integer G x ALL ordered selections of m<=3 distinct wires out of nw<=6 "
                      "(thorough: all m<=nw<=6) + random nw<=9; invalid wire lists; real gate objects over 1-3 fields in every "
                      "field order incl. unlisted fields; permute_gate_wires for all permutations n<=3 (thorough 4) + random. "
-                     "non-trivial = wires not an ascending adjacent block starting at 0, or >=2 fields, or a non-identity permutation")
-    ctx.lib(["Embed/EmbedCheck", "Embed/WireProofs"])
+                     "every gate class the harness can build (26 spec kinds incl. 4-wire gates) at least once per run over 2-3 fields; "
+                     "random selections of m=4..6 wires out of nw<=8 incl. fully descending ones. "
+                     "non-trivial = wires not an ascending adjacent block starting at 0, or >=2 fields listed, or a non-identity "
+                     "permutation, or a wire list the code must reject (repeated / out of range); CSR-conversion cases never count")
+    ctx.lib(["Embed/EmbedCheck", "Embed/WireProofs", "Embed/CsrProofs"])
     ok = ctx.translate("GenEmbed", gen_embed.generate)
     if ok:
         ctx.props()
@@ -307,11 +316,17 @@ def run(ctx):
     rng = ctx.rng
     cases = []
 
+    sampled = {}
+
     def add(term, desc, nontrivial=True):
         cases.append((term, desc))
         if nontrivial:
             ctx.nontriv(desc)
-        ctx.sample(desc, cap=8)
+            # samples: two non-trivial cases of every kind (not the first, smallest, enumerated ones)
+            k = desc.get("kind")
+            if sampled.get(k, 0) < 2 and (k != "distribute" or len(desc["ws"]) >= 3):
+                sampled[k] = sampled.get(k, 0) + 1
+                ctx.sample(desc, cap=24)
 
     # ------------------------------------------------------------ (A) _distribute_to_wires, all selections
     sels = []
@@ -325,6 +340,15 @@ def run(ctx):
         nw = rng.randint(7, 9)
         m = rng.randint(1, 3)
         sels.append((nw, rng.sample(range(nw), m)))
+    # wide gates (m = 4..6 wires; the quick tier enumerates only m <= 3), random order, plus the fully descending and
+    # the descending-with-gaps selections
+    for _ in range(40 if ctx.thorough else 12):
+        m = rng.randint(4, 6)
+        nw = rng.randint(m, 8)
+        sels.append((nw, rng.sample(range(nw), m)))
+    for m, nw in ((4, 4), (4, 6), (5, 7), (4, 8)):
+        sels.append((nw, list(range(nw - 1, nw - 1 - m, -1))))
+        sels.append((nw, sorted(rng.sample(range(nw), m), reverse=True)))
     ctx.exhaustive = {"ordered wire selections m<=%d of nw<=6" % max_m: n_sel_exh}
     seen_csr = 0
     for nw, ws in sels:
@@ -350,7 +374,7 @@ def run(ctx):
         if seen_csr < 120:
             seen_csr += 1
             add("CCsr %s %s %s %s %s" % (ct.zimat(G), ct.z(dim), zlist(indptr), zlist(indices), zilist(data)),
-                {"kind": "csr", "dim": dim, "nnz": len(data)}, len(data) > 0)
+                {"kind": "csr", "dim": dim, "nnz": len(data)}, False)
         if D is not None and nw <= 4 and rng.random() < 0.6:
             add("CEmbed %s %s %s %s" % (ct.nat(nw), natlist(ws), ct.zimat(G), ct.zimat(D)),
                 {"kind": "embed-spec", "nw": nw, "ws": ws}, nt)
@@ -380,27 +404,37 @@ def run(ctx):
         allp = [(fi, i) for fi, n in enumerate(sizes) for i in range(n)]
         return rng.sample(allp, k) if k <= len(allp) else None
 
-    def rand_spec(sizes, exact):
+    def rand_spec(sizes, exact, force=None):
         total = sum(sizes)
-        kinds = ["X", "Y", "Z", "S", "Gen1", "Gen2", "Gen3", "C1", "C2", "iSwap", "Mux", "CC"]
+        kinds = ["X", "Y", "Z", "S", "Gen1", "Gen2", "Gen3", "C1", "C2", "iSwap", "Mux", "CC", "I", "Sdg", "Gen4", "C3", "CGen2"]
         if not exact:
-            kinds += ["H", "T", "Rx", "Ry", "Rz", "Rxx", "Ryy", "Rzz", "Phase", "Sx", "CH"]
+            kinds += ["H", "T", "Rx", "Ry", "Rz", "Rxx", "Ryy", "Rzz", "Phase", "Sx", "CH", "Tdg", "Rot", "Prep2"]
+        if force is not None:
+            kinds = [force]
         for _ in range(50):
             k = rng.choice(kinds)
             need = {"Gen2": 2, "Gen3": 3, "C1": 2, "C2": 3, "iSwap": 2, "Mux": 2, "CC": 3, "Rxx": 2, "Ryy": 2, "Rzz": 2,
-                    "Phase": 2, "CH": 2}.get(k, 1)
+                    "Phase": 2, "CH": 2, "Gen4": 4, "C3": 4, "CGen2": 4, "Prep2": 2}.get(k, 1)
             if need > total:
                 continue
             ps = rand_particles(sizes, need)
             th = rng.randint(-16, 16) / 8.0
-            if k in ("X", "Y", "Z", "S", "H", "T", "Sx"):
+            if k in ("X", "Y", "Z", "S", "H", "T", "Sx", "I", "Sdg", "Tdg"):
                 return [k, ps[0]]
             if k in ("Rx", "Ry", "Rz"):
                 return [k, th, ps[0]]
+            if k == "Rot":
+                return ["Rot", [rng.randint(-8, 8) / 8.0 for _ in range(3)], ps[0]]
+            if k == "Prep2":
+                return ["Prep", [rng.randint(1, 8) / 8.0 * rng.choice([-1, 1]) for _ in range(4)], ps]
             if k in ("Rxx", "Ryy", "Rzz"):
                 return [k, th, ps[0], ps[1]]
             if k == "Phase":
                 return ["Phase", th, ps]
+            if k == "C3":       # three (possibly negated) controls, four wires in all
+                return ["C", [rng.randint(0, 1) for _ in range(3)], ps[:3], [rng.choice(["X", "Y", "S"]), ps[3]]]
+            if k == "CGen2":    # two controls on a dense two-wire target
+                return ["C", [rng.randint(0, 1), rng.randint(0, 1)], ps[:2], ["Gen", mat_spec(rand_phase_perm(rng, 4)), ps[2:]]]
             if k.startswith("Gen"):
                 return ["Gen", mat_spec(rand_phase_perm(rng, 2 ** need)), ps]
             if k == "iSwap":
@@ -417,6 +451,35 @@ def run(ctx):
                 return ["Mux", [ps[0]], [[rng.choice(["X", "Y"]), ps[1]], [rng.choice(["Z", "S"]), ps[1]]]]
         return ["X", rand_particles(sizes, 1)[0]]
 
+    def gate_case(sizes, order, spec):
+        nf = len(sizes)
+        desc = {"kind": "gate", "sizes": sizes, "order": order, "spec": spec}
+        ctx.count("gate_fields=%d_listed=%d" % (nf, len(order)))
+        ctx.count("gate_" + spec[0])
+        ctx.count("gate_wires=%d" % len(spec_particles(spec)))
+        kind, raw, D = oracle_gate(ctx, sizes, order, spec, desc)
+        prt = spec_particles(spec)
+        # map_particle_to_wire cases (model: field ids = indices into sizes)
+        F = mk_fields(sizes)
+        fl = [(fi, sizes[fi]) for fi in order]
+        for p in prt:
+            w = qib.util.map_particle_to_wire([F[i] for i in order], qubit(F, p))
+            if w != wire_of(sizes, order, p):
+                ctx.fail("map_particle_to_wire:not-offset-of-earlier-fields-plus-index", desc,
+                         wire_of(sizes, order, p), w)
+            add("CMp2w %s %s %s" % (pairs(fl), ct.pair(ct.z(p[0]), ct.z(p[1])), ct.z(w)),
+                {"kind": "mp2w", "fields": fl, "p": p}, len(order) > 1)
+        if kind is None:
+            return
+        gm = build_gate(spec, F).as_matrix()
+        if is_gauss_int(gm) and sum(sizes[i] for i in order) <= 6:
+            g, indptr, indices, data = csr_parts(gm)
+            add("CAcm %s %s %s %s %s %s %s %s" % (
+                pairs(fl), pairs(prt), ct.z(gm.shape[0]), zlist(indptr), zlist(indices), zilist(data),
+                ct.z(kind), triples_term(raw) if raw is not None else "[]"),
+                {"kind": "acm", "sizes": sizes, "order": order, "spec": spec[0], "particles": prt, "result": kind},
+                len(order) > 1 or [wire_of(sizes, order, p) for p in prt] != list(range(len(prt))))
+
     size_sets = [[1], [3], [2, 3], [3, 1], [2, 2], [1, 2, 3], [2, 1, 2], [1, 1, 1]]
     if ctx.thorough:
         size_sets += [[4], [1, 3], [3, 2, 1], [2, 2, 2], [1, 4]]
@@ -427,30 +490,26 @@ def run(ctx):
             for exact in (True, False):
                 spec = rand_spec(sizes, exact)
                 for order in orders:
-                    desc = {"kind": "gate", "sizes": sizes, "order": order, "spec": spec}
-                    ctx.count("gate_fields=%d_listed=%d" % (nf, len(order)))
-                    ctx.count("gate_" + spec[0])
-                    kind, raw, D = oracle_gate(ctx, sizes, order, spec, desc)
-                    prt = spec_particles(spec)
-                    # map_particle_to_wire cases (model: field ids = indices into sizes)
-                    F = mk_fields(sizes)
-                    fl = [(fi, sizes[fi]) for fi in order]
-                    for p in prt:
-                        w = qib.util.map_particle_to_wire([F[i] for i in order], qubit(F, p))
-                        if w != wire_of(sizes, order, p):
-                            ctx.fail("map_particle_to_wire:not-offset-of-earlier-fields-plus-index", desc,
-                                     wire_of(sizes, order, p), w)
-                        add("CMp2w %s %s %s" % (pairs(fl), ct.pair(ct.z(p[0]), ct.z(p[1])), ct.z(w)),
-                            {"kind": "mp2w", "fields": fl, "p": p}, len(order) > 1)
-                    if kind is None:
-                        continue
-                    gm = build_gate(spec, F).as_matrix()
-                    if is_gauss_int(gm) and sum(sizes[i] for i in order) <= 6:
-                        g, indptr, indices, data = csr_parts(gm)
-                        add("CAcm %s %s %s %s %s %s %s %s" % (
-                            pairs(fl), pairs(prt), ct.z(gm.shape[0]), zlist(indptr), zlist(indices), zilist(data),
-                            ct.z(kind), triples_term(raw) if raw is not None else "[]"),
-                            {"kind": "acm", "sizes": sizes, "order": order, "spec": spec[0], "particles": prt, "result": kind})
+                    gate_case(sizes, order, spec)
+    # every gate class the harness can build, at least once per run, in every order of two / three fields of
+    # different sizes (so an edit confined to one class's as_circuit_matrix / particles() meets an input);
+    # gates on four wires (dense 16x16, three controls, two controls on a dense two-wire target)
+    every = ["I", "X", "Y", "Z", "H", "S", "Sdg", "T", "Tdg", "Sx", "Rx", "Ry", "Rz", "Rot", "Rxx", "Ryy", "Rzz", "iSwap",
+             "Phase", "Prep2", "Gen2", "Gen3", "C1", "C2", "CC", "Mux", "Gen4", "C3", "CGen2"]
+    for kname in every:
+        for sizes in ([2, 3], [2, 1, 3]) + (([1, 4], [3, 2, 2]) if ctx.thorough else ()):
+            sizes = list(sizes)
+            nf = len(sizes)
+            spec = rand_spec(sizes, False, force=kname)
+            if spec[0] != {"Prep2": "Prep", "Gen2": "Gen", "Gen3": "Gen", "Gen4": "Gen", "C1": "C", "C2": "C", "CC": "C",
+                           "C3": "C", "CGen2": "C"}.get(kname, kname):
+                continue
+            orders = [list(p) for p in itertools.permutations(range(nf))]
+            if not ctx.thorough and len(orders) > 2:
+                orders = rng.sample(orders, 3)
+            orders.append(list(range(nf - 1)))          # last field unlisted
+            for order in orders:
+                gate_case(sizes, order, spec)
     # extra map_particle_to_wire sweep: all particles x all orders x listed subsets
     for sizes in ([2, 3], [3, 1, 2], [1, 2, 3], [2, 2, 1]):
         nf = len(sizes)
